@@ -109,7 +109,8 @@ prop("C08", level="other", bounded=[],
      explanation="proved for behave's own code: v1 TagExpression.check is the AND of ORs of possibly negated stored tags for every "
                  "expression object and tag list; the auto-detection decision table (v2 operator/wildcard words select v2, "
                  "negation prefix/comma/several words select v1, both together raise TagExpressionError) and its four word "
-                 "scanners. Text normalisation ('@', '~', ':limit'), the list form and the protocol dispatch are bounded "
+                 "scanners; normalize_tag applies exactly the documented spelling rules ('@' optional, '-@'/'~@'/'~' negate). "
+                 "':limit' handling, the list form and the protocol dispatch are bounded "
                  "(complete truth tables over enumerated CNF formulas)",
      technique="contract-based deductive verification (own VC generator over the real ASTs, z3/cvc5) of check() and the "
                "auto-detect decision; bounded run-time contract stand-in for string normalisation",
@@ -153,10 +154,69 @@ contract(P2 + "TagExpressionParser.make_operand", props=["C07"], params={"text":
 prop("C07", level="other", bounded=[],
      explanation="proved for behave's own extension code: a wildcard operand is true iff some tag matches its pattern "
                  "(fnmatchcase as an uninterpreted predicate), the operand factory builds a Matcher exactly for texts with "
-                 "glob wildcards and a Literal of the same text otherwise, a Matcher prints as its pattern. The Boolean "
+                 "glob wildcards and a Literal of the same text otherwise, a Matcher prints as its pattern; before the v2 parser "
+                 "sees a text every '@' is removed; setup_tag_expression selects the configured dialect before any expression "
+                 "of the configuration is parsed and substitutes {config.tags} by the printed configured expression. The Boolean "
                  "structure (and/or/not, parentheses, precedence) is parsed and evaluated by the third-party package "
                  "cucumber_tag_expressions and is covered by the bounded stand-in only (complete truth tables)",
      technique="contract-based deductive verification (own VC generator over the real ASTs, z3/cvc5) of behave's operand "
                "extensions; bounded run-time contract stand-in (complete truth tables, print/re-parse) for the third-party parser",
      notes=["cucumber_tag_expressions (parser, And/Or/Not/Literal.evaluate) and fnmatch are outside the verified text (A-lib)",
             "text normalisation in _parse_tag_expression_v2 and Not.__str__/to_string are string surgery: bounded only"])
+
+# ---------------------------------------------------------------------------------------
+# C08: spelling of a v1 tag (string surgery as uninterpreted functions: which rule applies to which spelling)
+contract(V1 + "TagExpression.normalize_tag", props=["C08"], params={"tag": "str"}, result="str", pure=True,
+         ensures={
+             "leading-at-sign-is-optional": "implies(tag.strip().startswith('@'), result == tag.strip()[1:])",
+             "minus-at-and-tilde-at-both-negate":
+                 "implies(not tag.strip().startswith('@') and (tag.strip().startswith('-@') or tag.strip().startswith('~@')), "
+                 "result == '-' + tag.strip()[2:])",
+             "tilde-negates-like-minus":
+                 "implies(not tag.strip().startswith('@') and not tag.strip().startswith('-@') and not tag.strip().startswith('~@') "
+                 "and tag.strip().startswith('~'), result == '-' + tag.strip()[1:])",
+             "anything-else-is-only-stripped":
+                 "implies(not tag.strip().startswith('@') and not tag.strip().startswith('-@') and not tag.strip().startswith('~@') "
+                 "and not tag.strip().startswith('~'), result == tag.strip())",
+         })
+
+# C07: text normalisation before the v2 parser: every '@' is removed, whatever precedes it
+oracle("v2_parsed", ["val"], "val")
+contract("abs:TagExpressionParser.parse", trusted=True, pos_params=["text"], pure=True, result="any",
+         ensures={"value": "result == v2_parsed(text)"}, doc="cucumber_tag_expressions based parser (A-lib; bounded: truth tables)")
+contract(B + "_parse_tag_expression_v2", props=["C07"], params={"text_or_seq": "str"}, result="any",
+         callsites={"TagExpressionParser.parse": "abs:TagExpressionParser.parse"},
+         ensures={"every-at-sign-is-removed-then-double-blanks-collapsed-then-parsed":
+                  "result == v2_parsed((text_or_seq.replace('@', '') if str_in('@', text_or_seq) else text_or_seq).replace('  ', ' '))"})
+
+# C07: the configured dialect is in force before *any* expression of this configuration is parsed
+from pyvc.contracts import ghost as _ghost
+_ghost("te_protocol", "val")
+contract("abs:TagExpressionProtocol.use", trusted=True, pos_params=["member"], modifies=["G_te_protocol"],
+         ensures={"selected": "G_te_protocol == member"}, doc="TagExpressionProtocol.use(member): sets the process-wide dialect")
+contract("abs:make_tag_expression", trusted=True, pos_params=["text_or_seq"], pure=True, result="any",
+         ensures={"value": "result == te_made(text_or_seq, G_te_protocol)"},
+         doc="make_tag_expression(text): parses with the process-wide dialect in force at the time of the call")
+oracle("te_made", ["val", "val"], "val")
+oracle("te_text", ["val"], "val:str")          # "{0}".format(expression)
+shape("Configuration", config_tags="any", default_tags="any", tags="any", tag_expression_protocol="any", tag_expression="any")
+contract("lib:str.format1", trusted=True, pos_params=["self", "x"], pure=True, result="str", ensures={"value": "result == te_text(x)"})
+contract(C_ := "behave.configuration:Configuration.setup_tag_expression", props=["C07"],
+         params={"self": "ref:Configuration", "tags": "opt:str"}, self_classes=["Configuration"],
+         callsites={"TagExpressionProtocol.use": "abs:TagExpressionProtocol.use", "make_tag_expression": "abs:make_tag_expression",
+                    "'{0}'.format": "lib:str.format1"},
+         requires={"tags-are-text": "(is_none(self.tags) or has_kind(self.tags, 'str')) and "
+                                    "(is_none(self.config_tags) or has_kind(self.config_tags, 'str')) and "
+                                    "(is_none(self.default_tags) or has_kind(self.default_tags, 'str'))"},
+         modifies=["G_te_protocol", "self.tag_expression", "self.tags", "lists"],
+         ensures={
+             "the-configured-dialect-is-in-force-afterwards": "G_te_protocol == self.tag_expression_protocol",
+             "the-expression-is-parsed-with-the-configured-dialect":
+                 "self.tag_expression == te_made(self.tags, self.tag_expression_protocol)",
+             "the-placeholder-is-replaced-by-the-configured-tags-parsed-with-the-configured-dialect-and-printed":
+                 "implies(str_in('{config.tags}', old(sel_tags(self, tags))), self.tags == str_replace(old(sel_tags(self, tags)), '{config.tags}', "
+                 "te_text(te_made(old(cfg_tags(self)), self.tag_expression_protocol))))",
+         })
+from pyvc.contracts import macro as _macro
+_macro("cfg_tags", ["c"], "(c.config_tags if truthy(c.config_tags) else (c.default_tags if truthy(c.default_tags) else ''))")
+_macro("sel_tags", ["c", "t"], "(t if truthy(t) else (c.tags if truthy(c.tags) else cfg_tags(c)))")
